@@ -116,3 +116,18 @@ Theorem C08_trix_constant {pw : PW} p1 (signal : ma_cfg) src (c0 : candle (N := 
   (2 < p1 <= pmax - 1)%Z -> (1 < ma_period signal)%Z -> ma_len_ok signal -> (4 <= pmax)%Z ->
   exists s0, trix_init p1 signal src c0 = Ok s0 /\ fst (snd (trix_next (steps trix_next s0 (repeat c0 k)) c0)) = [0%R; 0%R].
 Proof. exact (trix_constant p1 signal src c0 k). Qed.
+From Yata Require Import Proofs.Constant2.
+Theorem C08_bollinger_constant {pw : PW} (cfg : boll_cfg (N := NumR)) (c0 : candle (N := NumR)) k : boll_validate cfg = true ->
+  exists s0, boll_init cfg c0 = Ok s0 /\
+    fst (snd (boll_next (steps boll_next s0 (repeat c0 k)) c0)) = let v := c_source c0 (bc_source cfg) in [v; v; v].
+Proof. exact (bollinger_constant cfg c0 k). Qed.
+Theorem C08_cmo_constant {pw : PW} period zone src (c0 : candle (N := NumR)) k : cmo_validate period zone = true ->
+  exists s0, cmo_init period zone src c0 = Ok s0 /\ fst (snd (cmo_next (steps cmo_next s0 (repeat c0 k)) c0)) = [0%R].
+Proof. exact (cmo_constant period zone src c0 k). Qed.
+Theorem C08_donchian_constant {pw : PW} n (c0 : candle (N := NumR)) k : (2 <= n <= pmax - 1)%Z ->
+  exists s0, donch_init n c0 = Ok s0 /\
+    fst (snd (donch_next (steps donch_next s0 (repeat c0 k)) c0)) = [c_low c0; ((c_high c0 + c_low c0) * / 2)%R; c_high c0].
+Proof. exact (donchian_constant n c0 k). Qed.
+Theorem C08_aroon_constant {pw : PW} n zone ozp (c0 : candle (N := NumR)) k : aroon_validate n zone ozp = true ->
+  exists s0, aroon_init n zone ozp c0 = Ok s0 /\ fst (snd (aroon_next (steps aroon_next s0 (repeat c0 k)) c0)) = [1%R; 1%R].
+Proof. exact (aroon_constant n zone ozp c0 k). Qed.
